@@ -54,6 +54,11 @@ def run(ctx):
                 cfg.update({"K": 4, "regimes": 2})
             cfgs.append(cfg)
         cfgs.append(tu.gen_config(ctx.rng, joint=True))
+        # a run that really repopulates a cluster (random donor draws): searched for, not hoped for
+        rc = tu.find_repopulating_config(ctx.rng)
+        if rc is not None:
+            cfgs.append(rc)
+            ctx.count("repopulating_config_found")
 
     def call(cfg, nproc, mp):
         series = tu.config_data(cfg)
